@@ -224,6 +224,17 @@ class Check:
             "theorems": props["theorems"],
             "print_assumptions": props["assumptions"],
         })
+        if self.tier == "thorough" and props["ok"]:
+            # independent re-check of the compiled theorems and their dependencies
+            rc, out = sh(f"timeout 1500 coqchk -Q . SC -o SC.Props.{self.pid}", cwd=COQ, timeout=1560)
+            m = re.search(r"\* Axioms:(.*?)\n\s*\n", out + "\n\n", re.S)
+            self.coverage["coqchk"] = {
+                "cmd": f"coqchk -Q . SC -o SC.Props.{self.pid}", "ok": rc == 0 and "successfully checked" in out,
+                "axioms": (m.group(1).strip() if m else "?"),
+            }
+            if not self.coverage["coqchk"]["ok"]:
+                props["ok"] = False
+                props["log"] = "coqchk failed:\n" + out[-2000:]
         self.proof_ok = props["ok"] and not hits and obligations > 0 and discharged == obligations
         self.proof_log = ("forbidden words: " + "; ".join(hits) + "\n" if hits else "") + (props["log"][-3000:] if not props["ok"] else "")
         self.axioms = axioms
